@@ -456,6 +456,24 @@ func body(w *runner.W) {
 				copies.Do(CopyCase{Old: tw.old, New: tw.nw, Comp: c})
 			}
 		}
+		// many blocks under ONE weak hash (every all-zero block has rolling checksum 0 whatever
+		// its length): a zero-filled file of 70 blocks and a tail, 80 zero-filled files of 80
+		// different lengths, and both next to high-entropy data; unchanged, renamed, duplicated
+		zbig := fmt.Sprintf("z/%d", 70*B+100)
+		var zsmall, zsmallRenamed wh.Build
+		for i := 1; i <= 80; i++ {
+			zsmall = append(zsmall, wh.F(fmt.Sprintf("z%02d", i), fmt.Sprintf("z/%d", i*37)))
+			zsmallRenamed = append(zsmallRenamed, wh.F(fmt.Sprintf("m/z%02d", i), fmt.Sprintf("z/%d", i*37)))
+		}
+		for i, zc := range []struct{ old, nw wh.Build }{
+			{wh.Build{wh.F("a", zbig)}, wh.Build{wh.F("a", zbig)}},
+			{wh.Build{wh.F("a", zbig), wh.F("u", U)}, wh.Build{wh.F("b", zbig), wh.F("c", zbig), wh.F("u", U)}},
+			{zsmall, zsmall},
+			{append(append(wh.Build{}, zsmall...), wh.F("u", U)), append(append(wh.Build{}, zsmallRenamed...), wh.F("u", U))},
+			{wh.Build{wh.F("a", zbig+".A.B")}, wh.Build{wh.F("a", zbig+".A.B"), wh.F("b", "A.B")}},
+		} {
+			copies.Do(CopyCase{Old: zc.old, New: zc.nw, Comp: comps[i%3]})
+		}
 		// every registered compression setting on one rename+duplicate pair
 		for _, c := range wh.AllComps() {
 			copies.Do(CopyCase{Old: wh.Build{wh.F("a", bases[0]), wh.F("u", U)}, New: wh.Build{wh.F("0c", bases[0]), wh.F("zz", bases[0]), wh.F("u", U)}, Comp: c})
